@@ -210,7 +210,8 @@ def c10_case(args):
     fcp = parse(SCHEMA)
     cats = CATEGORY_SETS[setname]
     feats = {"desc": f"{setname}/records{nrecords}" + ({0: "", 1: "/after-an-accepted-generation",
-                                                        2: "/after-a-generation-by-another-manager"}[int(history)])
+                                                        2: "/after-a-generation-by-another-manager",
+                                                        3: "/after-a-rejected-generation"}[int(history)])
              + ("/through-the-generate-command" if entry == "cli" else ""),
              "checks": cats}
     srcdir = schema_path = None
@@ -252,6 +253,15 @@ def c10_case(args):
             if not (hasattr(first, "is_ok") and first.is_ok()):
                 raise EngineLimit(f"history prefix was not accepted: {first!r}")
             fs.ops.clear()
+        elif history == 3:
+            # an earlier generation of the same schema through the same manager that a check REJECTED (a retry after a
+            # failure): whatever the aborted verification left behind must not weaken the next one
+            fcp_vstub.CONFIG.update({"checks": ["struct", "impl"], "records": [], "verdict": lambda ci, cat, k: k == 0 and ci == 0,
+                                     "calls": []})
+            first = gm.generate("vstub", None, None, fcp, "outdir")
+            if not (hasattr(first, "is_err") and first.is_err()) or fs.ops:
+                raise EngineLimit(f"history prefix was not rejected cleanly: {first!r} {fs.ops[:2]}")
+            fs.ops.clear()
         elif history:
             # an earlier, accepted generation of the same schema object through the same manager (a plug-in
             # without checks): the later call must still consult the checks registered for it
@@ -260,7 +270,8 @@ def c10_case(args):
             if not (hasattr(first, "is_ok") and first.is_ok()):
                 raise EngineLimit(f"history prefix was not accepted: {first!r}")
             fs.ops.clear()
-        fcp_vstub.CONFIG.update({"checks": cats, "records": recs, "verdict": verdict, "calls": []})
+        fcp_vstub.CONFIG.update({"checks": cats, "records": recs, "verdict": verdict, "calls": [],
+                                 "epoch": fcp_vstub.CONFIG.get("epoch", 0) + 1})
         if entry == "cli":
             del printed[:]
             outdir = os.path.join(srcdir, "out")
@@ -516,6 +527,7 @@ def run_c10(tier: str) -> int:
     for s in ("one_per_category", "late_only"):
         cases.append(("sym", s, 1, 1, tier))
         cases.append(("sym", s, 1, 2, tier))
+        cases.append(("sym", s, 1, 3, tier))
     for s in (("one_per_category", "several_per_category", "none") if tier == "quick" else tuple(CATEGORY_SETS)):
         for n in ((2,) if tier == "quick" else (0, 1, 2, 3)):
             cases.append(("sym", s, n, 0, tier, "cli"))
